@@ -319,4 +319,114 @@ theorem C01_readFile_presented (file : List (List (Bool × Csv.Field) × Bool)) 
     takeWhile_all _ _ (fun r hr => by simp [hw r hr])
   simp [ht]
 
+/-! ## per-row transcription of the remaining row functions -/
+
+/-- (that the two stops are the ones named by the row is `C03_transfer_stops`) -/
+theorem C01_transfer_fields (hdr row : List Str) (stops : List Stop) (t : Transfer) (h : transferOfRow hdr row stops = some t) :
+    t.type = Gen.Enums.parseTransferType (optRead hdr row c_transfer_type) ∧
+    t.minTransferTime = parseInt32 (optRead hdr row c_min_transfer_time) := by
+  unfold transferOfRow at h
+  split at h
+  · simp at h
+  · split at h
+    · split at h
+      · simp at h
+      · simp only [Option.some.injEq] at h; subst h
+        exact ⟨rfl, rfl⟩
+    · simp at h
+
+theorem C01_shape_row_fields (env : Env) (hdr row : List Str) (id : Str) (seq : Int) (p : ShapePoint)
+    (h : shapeRowOf env hdr row = some (id, seq, p)) :
+    id = optRead hdr row c_shape_id ∧ parseInt32 (optRead hdr row c_shape_pt_sequence) = some seq ∧
+    env.floatOf (optRead hdr row c_shape_pt_lat) = some p.latitude ∧ env.floatOf (optRead hdr row c_shape_pt_lon) = some p.longitude ∧
+    p.distance = env.floatOf (optRead hdr row c_shape_dist_traveled) := by
+  unfold shapeRowOf at h
+  split at h
+  · simp at h
+  · split at h
+    · next lat lon sq h1 h2 h3 =>
+      simp only [Option.some.injEq, Prod.mk.injEq] at h
+      obtain ⟨rfl, rfl, rfl⟩ := h
+      exact ⟨rfl, h3, h1, h2, rfl⟩
+    · simp at h
+
+theorem C01_frequency_fields (hdr row : List Str) (trips : List Trip) (ti : Nat) (f : Frequency) (h : freqOfRow hdr row trips = some (ti, f)) :
+    parseGtfsTime (optRead hdr row c_start_time) = some f.startTime ∧ parseGtfsTime (optRead hdr row c_end_time) = some f.endTime ∧
+    parseInt32 (optRead hdr row c_headway_secs) = some f.headway ∧
+    f.exactTimes = Gen.Enums.parseExactTimes (optRead hdr row c_exact_times) := by
+  unfold freqOfRow at h
+  split at h
+  · simp at h
+  · split at h
+    · next ti' hw st et h1 h2 h3 h4 =>
+      simp only [Option.some.injEq, Prod.mk.injEq] at h
+      obtain ⟨rfl, rfl⟩ := h
+      exact ⟨h3, h4, h2, rfl⟩
+    · simp at h
+
+/-- a stop time carries the row's values; when both times are given neither is touched, when one is
+    blank, absent or unreadable it takes the other's value -/
+theorem C01_stop_time_fields (env : Env) (hdr row : List Str) (stops : List Stop) (trips : List Trip) (ti : Nat) (st : StopTime)
+    (h : stopTimeOfRow env hdr row stops trips = some (ti, st)) :
+    atoi64 (optRead hdr row c_stop_sequence) = some st.sequence ∧ st.headsign = optRead hdr row c_stop_headsign ∧
+    st.pickupType = Gen.Enums.parsePickupDropOffPolicy (readOr hdr row c_pickup_type [48]) ∧
+    st.dropOffType = Gen.Enums.parsePickupDropOffPolicy (readOr hdr row c_drop_off_type [48]) ∧
+    st.continuousPickup = Gen.Enums.parsePickupDropOffPolicy (readOr hdr row c_continuous_pickup []) ∧
+    st.continuousDropOff = Gen.Enums.parsePickupDropOffPolicy (readOr hdr row c_continuous_drop_off []) ∧
+    st.shapeDist = env.floatOf (optRead hdr row c_shape_dist_traveled) ∧
+    (∀ a d, parseGtfsTime (optRead hdr row c_arrival_time) = some a → parseGtfsTime (optRead hdr row c_departure_time) = some d →
+      st.arrival = a ∧ st.departure = d) ∧
+    (∀ a, parseGtfsTime (optRead hdr row c_arrival_time) = some a → parseGtfsTime (optRead hdr row c_departure_time) = none →
+      st.arrival = a ∧ st.departure = a) ∧
+    (∀ d, parseGtfsTime (optRead hdr row c_arrival_time) = none → parseGtfsTime (optRead hdr row c_departure_time) = some d →
+      st.arrival = d ∧ st.departure = d) := by
+  unfold stopTimeOfRow at h
+  simp only at h
+  split at h
+  · simp at h
+  · next a d hm =>
+    split at h
+    · simp at h
+    · next seq hseq =>
+      split at h
+      · simp at h
+      · split at h
+        · simp only [Option.some.injEq, Prod.mk.injEq] at h
+          obtain ⟨rfl, rfl⟩ := h
+          refine ⟨hseq, rfl, rfl, rfl, rfl, rfl, rfl, ?_, ?_, ?_⟩
+          · intro a' d' ha hd; rw [ha, hd] at hm; simp at hm; exact ⟨hm.1.symm, hm.2.symm⟩
+          · intro a' ha hd; rw [ha, hd] at hm; simp at hm; exact ⟨hm.1.symm, hm.2.symm⟩
+          · intro d' ha hd; rw [ha, hd] at hm; simp at hm; exact ⟨hm.1.symm, hm.2.symm⟩
+        · simp at h
+
+
+/-- an accepted calendar.txt row makes its service's entry carry the row's weekdays ("1" = runs) and
+    the two civil days of its range; other services' entries are untouched -/
+theorem C01_calendar_row (hdr row : List Str) (m : List (Str × Service)) (sd ed : Int)
+    (hs : Civil.parseDate8 (optRead hdr row c_start_date) = some sd) (he : Civil.parseDate8 (optRead hdr row c_end_date) = some ed)
+    (hk : missingKeys hdr row calendarRequired = []) :
+    alookup (optRead hdr row c_service_id) (calendarStep hdr m row) =
+      some { id := optRead hdr row c_service_id,
+             monday := optRead hdr row c_monday == [49], tuesday := optRead hdr row c_tuesday == [49],
+             wednesday := optRead hdr row c_wednesday == [49], thursday := optRead hdr row c_thursday == [49],
+             friday := optRead hdr row c_friday == [49], saturday := optRead hdr row c_saturday == [49],
+             sunday := optRead hdr row c_sunday == [49], startDate := sd, endDate := ed } ∧
+    ∀ k, k ≠ optRead hdr row c_service_id → alookup k (calendarStep hdr m row) = alookup k m := by
+  unfold calendarStep
+  simp only [hs, he, hk, ne_eq, not_true_eq_false, if_false]
+  constructor
+  · rw [alookup_aset_same]; rfl
+  · intro k hne
+    exact alookup_aset_other _ _ _ _ (fun e => hne e.symm)
+
+/-- a calendar.txt row with an unreadable date or a blank required cell changes nothing -/
+theorem C01_calendar_row_rejected (hdr row : List Str) (m : List (Str × Service))
+    (h : Civil.parseDate8 (optRead hdr row c_start_date) = none ∨ Civil.parseDate8 (optRead hdr row c_end_date) = none ∨
+         missingKeys hdr row calendarRequired ≠ []) : calendarStep hdr m row = m := by
+  unfold calendarStep
+  rcases h with h | h | h
+  · simp [h]
+  · cases Civil.parseDate8 (optRead hdr row c_start_date) <;> simp [h]
+  · cases Civil.parseDate8 (optRead hdr row c_start_date) <;> cases Civil.parseDate8 (optRead hdr row c_end_date) <;> simp [h]
+
 end Gtfs.Static
